@@ -10,6 +10,10 @@ import (
 
 	"pgregory.net/rapid"
 
+	"github.com/kardiachain/go-kardia/consensus"
+	kproto "github.com/kardiachain/go-kardia/proto/kardiachain/types"
+	"github.com/kardiachain/go-kardia/types"
+
 	"verifharness/internal/ev"
 	"verifharness/internal/netsim"
 )
@@ -156,7 +160,21 @@ func TestLiveness(t *testing.T) {
 			if strings.HasPrefix(why, "deadlock") {
 				key = "liveness.deadlock"
 			}
-			ev.Violation(t, key, s.TraceText(), "synchronous suffix did not reach height %d from %d after %d timeouts: %s", target, start, timeouts, why)
+			if k := stuckKind(s, powers); k != "" {
+				key = "liveness.stuck:" + k
+			}
+			dbg := ""
+			if os.Getenv("C04_DEBUG") != "" {
+				for _, i := range s.Correct {
+					cs := s.Nodes[i].CS
+					if cs.Height == s.MinHeight(s.Correct) {
+						for r := uint32(1); r <= 3; r++ {
+							dbg += fmt.Sprintf("\n n%d precommits(%d)=%v commitRound=%d", i, r, cs.Votes.Precommits(r), cs.CommitRound)
+						}
+					}
+				}
+			}
+			ev.Violation(t, key, s.TraceText(), "synchronous suffix did not reach height %d from %d after %d timeouts: %s\nstill on offer: %s%s", target, start, timeouts, why, s.DescribeOffers(s.Correct), dbg)
 		}
 		if v := s.AgreementViolation(); v != "" {
 			ev.Violation(t, "agreement", s.TraceText(), "%s", v)
@@ -253,5 +271,313 @@ func TestGenesisFirstBlocks(t *testing.T) {
 		s.Close()
 		ev.Case(true, desc, "genesis-variant")
 		ev.Sample("genesis-variant", desc)
+	}
+}
+
+// ---------------------------------------------------------------- known finding: decided node waits for the block
+
+const keyStuck = "liveness.stuck:decided-without-block,rest-below-quorum"
+
+// stuckKind classifies a no-progress state: "decided-without-block,rest-below-quorum" when a correct node sits in the
+// commit step without the block while the correct nodes still voting at that height hold no more than 2/3 of the
+// power; "" otherwise.
+func stuckKind(s *netsim.Sim, powers []int64) string {
+	var total int64
+	for _, p := range powers {
+		total += p
+	}
+	h := s.MinHeight(s.Correct)
+	waiting := false
+	var voting int64
+	for _, i := range s.Correct {
+		cs := s.Nodes[i].CS
+		if cs.Height != h {
+			continue
+		}
+		if cs.Step.String() == "RoundStepCommit" && (cs.ProposalBlockParts == nil || !cs.ProposalBlockParts.IsComplete()) {
+			waiting = true
+		} else {
+			voting += powers[i]
+		}
+	}
+	if waiting && voting*3 <= total*2 {
+		return "decided-without-block,rest-below-quorum"
+	}
+	// a node that holds +2/3 precommits for a block of its height in some round but is not in the commit step: it was
+	// pulled into a later round (enterNewRound has no guard for the commit step) and nothing will re-trigger the commit,
+	// because every peer sees that it already has those votes
+	for _, i := range s.Correct {
+		cs := s.Nodes[i].CS
+		if cs.Height != h || cs.Step.String() == "RoundStepCommit" {
+			continue
+		}
+		for r := uint32(1); r <= cs.Round; r++ {
+			if pc := cs.Votes.Precommits(r); pc != nil {
+				if id, ok := pc.TwoThirdsMajority(); ok && !id.IsZero() {
+					return "commit-quorum-held-outside-commit-step"
+				}
+			}
+		}
+	}
+	return ""
+}
+
+const keyLeft = "liveness.stuck:commit-quorum-held-outside-commit-step"
+
+// TestKnownLeftCommitStep: four equal validators, one Byzantine (B). Round 1 as in TestKnownDecidedWithoutBlock, except
+// that B first hides its precommit from everybody, so that C and D go on to round 2 and prevote there. Then B shows its
+// precommit for X to A: A holds +2/3 precommits for X (C, D, B) and enters the commit step without the block. The
+// round-2 prevotes of C, D and B now reach A: +2/3 of anything in a later round pulls A out of the commit step into
+// round 2 (its part set is reset). Finally B shows its precommit to C and D, which commit X and go to height 2. From
+// here on delivery is synchronous and B is silent: A already holds every precommit of the commit, so nothing triggers
+// it again; it never fetches the block; C and D cannot decide height 2 without A.
+func TestKnownLeftCommitStep(t *testing.T) {
+	powers := []int64{15, 15, 15, 15}
+	s, err := netsim.NewSim(powers, nil, nil)
+	if err != nil {
+		t.Fatalf("harness: %v", err)
+	}
+	defer s.Close()
+	vs := s.Nodes[0].CS.Validators.Copy()
+	p1 := vs.GetProposer().Address
+	vs.IncrementProposerPriority(1)
+	p2 := vs.GetProposer().Address
+	C, B := -1, -1
+	for i := range s.Keys {
+		if s.Addr(i) == p1 {
+			C = i
+		}
+		if s.Addr(i) == p2 {
+			B = i
+		}
+	}
+	A, D := -1, -1
+	for i := range s.Keys {
+		if i != C && i != B {
+			if A < 0 {
+				A = i
+			} else {
+				D = i
+			}
+		}
+	}
+	s.Down[B] = true
+	s.Byz = []int{B}
+	s.Correct = []int{A, C, D}
+	desc := fmt.Sprintf("scripted: A=n%d C=n%d(proposer r1) D=n%d B=n%d(Byzantine, proposer r2)", A, C, D, B)
+	relay := func(to int, from []int, typ kproto.SignedMsgType, round uint32) {
+		for _, j := range from {
+			for _, m := range netsim.Offers(s.Nodes[j], s.Nodes[to]) {
+				if vm, ok := m.(*consensus.VoteMessage); ok && vm.Vote.Type == typ && vm.Vote.Round == round {
+					s.Deliver(to, j, m)
+				}
+			}
+		}
+		s.DrainOwn(to)
+	}
+	var reached bool
+	var why string
+	msg, frame := ev.Try(func() {
+		s.Start()
+		for _, i := range s.Correct {
+			s.FireTimeoutNoDrain(i)
+		}
+		s.DrainOwn(C)
+		s.RegisterFromNodes()
+		for pass := 0; pass < 2; pass++ {
+			for _, m := range netsim.Offers(s.Nodes[C], s.Nodes[D]) {
+				switch m.(type) {
+				case *consensus.ProposalMessage, *consensus.BlockPartMessage:
+					s.Deliver(D, C, m)
+				}
+			}
+		}
+		s.DrainOwn(D)
+		s.FireTimeout(A) // propose timeout -> prevote nil
+		X := s.Cands[1][0].ID
+		s.ByzVoteTo([]int{C, D}, kproto.PrevoteType, 1, X, 1)
+		relay(C, []int{D}, kproto.PrevoteType, 1)
+		relay(D, []int{C}, kproto.PrevoteType, 1) // C and D: polka -> lock, precommit X
+		relay(A, []int{C, D}, kproto.PrevoteType, 1)
+		s.FireTimeout(A) // prevote-wait -> precommit nil
+		// precommits among the correct nodes; B shows nil to C and D: 2/3-any, no decision
+		s.ByzVoteTo([]int{C, D}, kproto.PrecommitType, 1, types.BlockID{}, 1)
+		relay(C, []int{A, D}, kproto.PrecommitType, 1)
+		relay(D, []int{A, C}, kproto.PrecommitType, 1)
+		s.FireTimeout(C) // precommit-wait -> round 2
+		s.FireTimeout(D)
+		s.FireTimeout(C) // silent proposer -> prevote X (locked)
+		s.FireTimeout(D)
+		// A learns the precommits for X: C's, D's and (only now) B's -> commit step without the block
+		s.ByzVoteTo([]int{A}, kproto.PrecommitType, 1, X, 1) // first: afterwards C and D would relay B's nil precommit
+		relay(A, []int{C, D}, kproto.PrecommitType, 1)
+		desc += fmt.Sprintf(" | A after the precommits: %s", netsim.Fingerprint(s.Nodes[A]))
+		// the round-2 prevotes reach A: pulled into round 2
+		relay(A, []int{C, D}, kproto.PrevoteType, 2)
+		s.ByzVoteTo([]int{A}, kproto.PrevoteType, 2, types.BlockID{}, 1)
+		desc += fmt.Sprintf(" | A after the round-2 prevotes: %s", netsim.Fingerprint(s.Nodes[A]))
+		// B's precommit for X reaches C and D as well (conflicting with its nil one: needs the +2/3 claim first)
+		for _, i := range []int{C, D} {
+			s.Deliver(i, A, &consensus.VoteSetMaj23Message{Height: 1, Round: 1, Type: kproto.PrecommitType, BlockID: X})
+		}
+		s.ByzVoteTo([]int{C, D}, kproto.PrecommitType, 1, X, 1)
+		desc += " | before suffix: " + s.Describe(s.Correct)
+		reached, _, why = s.SyncRun(s.Correct, 3, 600)
+	})
+	if msg != "" {
+		ev.Violation(t, "panic:"+frame, desc, "panic in the scripted schedule: %s", msg)
+		return
+	}
+	kind := ""
+	if !reached {
+		kind = stuckKind(s, powers)
+	}
+	ev.Case(true, desc, "known-reproducer")
+	ev.Sample("known-reproducer", desc+" => reached="+fmt.Sprint(reached)+" "+why)
+	if ev.Known(keyLeft) {
+		ev.KnownReproduced(keyLeft, !reached && kind == "commit-quorum-held-outside-commit-step")
+		return
+	}
+	if !reached {
+		key := "liveness.deadlock"
+		if kind != "" {
+			key = "liveness.stuck:" + kind
+		}
+		ev.Violation(t, key, desc, "no progress under synchronous delivery: %s", why)
+	}
+}
+
+// TestKnownDecidedWithoutBlock: four equal validators, one Byzantine (B). Round 1: the proposal X reaches C and D but
+// not A; C, D and B prevote X (B only towards C and D), so C and D lock and precommit X; A prevotes and precommits nil.
+// B shows its precommit for X to A only and a nil precommit to C and D. A now holds +2/3 precommits for X and enters
+// the commit step without the block; C and D see no decision and move to round 2, whose proposer is B (silent). From
+// here on delivery is synchronous and B stays silent: C and D (locked on X) hold 2 of 4 votes, never see +2/3 of
+// anything, never time out again; the reactor only forwards votes of the receiver's current round and parts of the
+// sender's current proposal, so A never gets X and C and D never learn of the round-1 decision.
+func TestKnownDecidedWithoutBlock(t *testing.T) {
+	powers := []int64{15, 15, 15, 15}
+	s, err := netsim.NewSim(powers, nil, nil)
+	if err != nil {
+		t.Fatalf("harness: %v", err)
+	}
+	defer s.Close()
+	// roles from the proposer order
+	vs := s.Nodes[0].CS.Validators.Copy()
+	p1 := vs.GetProposer().Address
+	vs.IncrementProposerPriority(1)
+	p2 := vs.GetProposer().Address
+	idx := func(a interface{ Hex() string }) int {
+		for i := range s.Keys {
+			if s.Addr(i).Hex() == a.Hex() {
+				return i
+			}
+		}
+		return -1
+	}
+	C, B := idx(p1), idx(p2)
+	if C == B {
+		t.Fatalf("harness: same proposer in rounds 1 and 2")
+	}
+	var A, D = -1, -1
+	for i := range s.Keys {
+		if i != C && i != B {
+			if A < 0 {
+				A = i
+			} else {
+				D = i
+			}
+		}
+	}
+	s.Down[B] = true
+	s.Byz = []int{B}
+	s.Correct = []int{A, C, D}
+	desc := fmt.Sprintf("scripted: A=n%d C=n%d(proposer r1) D=n%d B=n%d(Byzantine, proposer r2)", A, C, D, B)
+	var reached bool
+	var why string
+	msg, frame := ev.Try(func() {
+		s.Start()
+		for _, i := range s.Correct {
+			s.FireTimeoutNoDrain(i) // NewHeight -> round 1
+		}
+		s.DrainOwn(C) // C proposes X and prevotes it
+		s.RegisterFromNodes()
+		// proposal + parts to D only
+		for pass := 0; pass < 2; pass++ { // the proposal first, then the parts (offered once D knows the part-set header)
+			for _, m := range netsim.Offers(s.Nodes[C], s.Nodes[D]) {
+				switch m.(type) {
+				case *consensus.ProposalMessage, *consensus.BlockPartMessage:
+					s.Deliver(D, C, m)
+				}
+			}
+		}
+		s.DrainOwn(D)    // D prevotes X
+		s.FireTimeout(A) // A: propose timeout -> prevote nil
+		X := s.Cands[1][0].ID
+		// prevotes: C and D see each other's and B's prevote for X -> polka -> lock + precommit X
+		s.ByzVoteTo([]int{C, D}, kproto.PrevoteType, 1, X, 1)
+		for _, pair := range [][2]int{{C, D}, {D, C}} {
+			for _, m := range netsim.Offers(s.Nodes[pair[1]], s.Nodes[pair[0]]) {
+				if vm, ok := m.(*consensus.VoteMessage); ok && vm.Vote.Type == kproto.PrevoteType {
+					s.Deliver(pair[0], pair[1], m)
+				}
+			}
+			s.DrainOwn(pair[0])
+		}
+		// A sees all prevotes it can get (2 for X + its own nil: 2/3-any), times out, precommits nil
+		for _, j := range []int{C, D} {
+			for _, m := range netsim.Offers(s.Nodes[j], s.Nodes[A]) {
+				if vm, ok := m.(*consensus.VoteMessage); ok && vm.Vote.Type == kproto.PrevoteType {
+					s.Deliver(A, j, m)
+				}
+			}
+		}
+		s.DrainOwn(A)
+		s.FireTimeout(A) // prevote-wait -> precommit nil
+		// B equivocates on the precommit: X towards A, nil towards C and D
+		s.ByzVoteTo([]int{A}, kproto.PrecommitType, 1, X, 1)
+		s.ByzVoteTo([]int{C, D}, kproto.PrecommitType, 1, types.BlockID{}, 1)
+		// precommits flow between the correct nodes
+		for _, i := range []int{A, C, D} {
+			for _, j := range []int{A, C, D} {
+				if i == j {
+					continue
+				}
+				for _, m := range netsim.Offers(s.Nodes[j], s.Nodes[i]) {
+					if vm, ok := m.(*consensus.VoteMessage); ok && vm.Vote.Type == kproto.PrecommitType {
+						s.Deliver(i, j, m)
+					}
+				}
+				s.DrainOwn(i)
+			}
+		}
+		// still in the asynchronous prefix: C and D time out of round 1 and of the (silent) proposal of round 2
+		for k := 0; k < 2; k++ {
+			s.FireTimeout(C)
+			s.FireTimeout(D)
+		}
+		// from here on: synchronous, B silent
+		desc += " | before suffix: " + s.Describe(s.Correct)
+		reached, _, why = s.SyncRun(s.Correct, 3, 600)
+	})
+	if msg != "" {
+		ev.Violation(t, "panic:"+frame, desc, "panic in the scripted schedule: %s", msg)
+		return
+	}
+	kind := ""
+	if !reached {
+		kind = stuckKind(s, powers)
+	}
+	ev.Case(true, desc, "known-reproducer")
+	ev.Sample("known-reproducer", desc+" => reached="+fmt.Sprint(reached)+" "+why)
+	if ev.Known(keyStuck) {
+		ev.KnownReproduced(keyStuck, !reached && kind != "")
+		return
+	}
+	if !reached {
+		key := "liveness.deadlock"
+		if kind != "" {
+			key = keyStuck
+		}
+		ev.Violation(t, key, desc, "no progress under synchronous delivery: %s", why)
 	}
 }
